@@ -75,12 +75,13 @@ def check(tier):
         rep.obligation("instance file compiles", False)
         rep.violation("cases", {"theorem": "gen/cases_C10_*.v does not compile", "log": out[-3000:]}, no_input=True)
         return rep.finish()
-    rep.obligation("three-way certified instances on %d patterns (%d automata)" % (len(cases), rep.cov["programs"]), not bad)
-    rep.cov["disagreements_checked"] = len(bad)
     # patterns with a NUL-containing set: the NFA route treats NUL as epsilon, the followpos route as a character;
     # the routes then differ (known finding D3); such patterns are not judged here
     known_idx = list(R.LAST["known"])
     bad = [i for i in bad if i not in set(known_idx)]
+    rep.obligation("three-way certified instances on the %d patterns outside known finding D3 (%d automata in all)"
+                   % (len(cases) - len(known_idx), rep.cov["programs"]), not bad)
+    rep.cov["disagreements_checked"] = len(bad)
     k = rep.match_known({"pattern-set-contains-nul"})
     if known_idx and k is not None:
         for _ in known_idx:
